@@ -11,7 +11,7 @@ def dump_all(dumpdir):
     info = names.translate_names()
     names.dump_text(info, dumpdir)
     v = versions.translate_versions()
-    with open(os.path.join(dumpdir, "versions.txt"), "w") as f:
+    with atomic_open(os.path.join(dumpdir, "versions.txt")) as f:
         fn = dict(v["filename"])
         for (ident, val) in v["enum"]:
             f.write("%d %s\n" % (val, fn.get(ident, "?")))
